@@ -13,8 +13,8 @@ ASSUMPTIONS = [
     "displacement / squeezing / beam splitter: only the generator passed to expm is decided; the coherent-state and "
     "squeezed-vacuum amplitudes (value of expm on a truncated space) are NOT decided",
 ]
-BOUNDS = {"quick": "cut-offs 1..6, all real angles (symbolic), complex alpha/zeta (symbolic), real eta (symbolic)",
-          "thorough": "cut-offs 1..9"}
+BOUNDS = {"quick": "cut-offs 1..6 (ladder-operator entries also at 33, 64, 65, 100), all real angles (symbolic), complex alpha/zeta (symbolic), real eta (symbolic)",
+          "thorough": "cut-offs 1..9 (ladder-operator entries also at 16..200, 13 values)"}
 OPTS = {"quick": {"max_paths": 8}, "thorough": {"max_paths": 8}}
 
 CONST = ["I", "X", "Y", "Z", "H", "S", "T", "SX"]
@@ -36,6 +36,9 @@ def cases(tier):
     for d in range(1, top + 1):
         out.append({"id": f"ladder/{d}", "what": "ladder", "d": d})
         out.append({"id": f"phase/{d}", "what": "phase", "d": d})
+    # larger cut-offs (entries only): around powers of two and beyond anything the test-suite reaches (its maximum is 37)
+    for d in ((33, 64, 65, 100) if tier == "quick" else (16, 17, 32, 33, 63, 64, 65, 66, 100, 127, 128, 129, 200)):
+        out.append({"id": f"ladder-entries/{d}", "what": "ladder-entries", "d": d})
     for d in range(2, (5 if tier == "quick" else 7) + 1):
         out.append({"id": f"displace/{d}", "what": "displace", "d": d})
         out.append({"id": f"squeeze/{d}", "what": "squeeze", "d": d})
@@ -176,6 +179,11 @@ def scenario(B, case):
         comm = ref.matmul(a, ad) - ref.matmul(ad, a)
         B.require_zero([comm[:d - 1, :d - 1] - cm.identity(B, d)[:d - 1, :d - 1]], f"[a, a^+] = 1 below the cut-off {d}",
                        "commutator")
+    elif what == "ladder-entries":
+        d = case["d"]
+        a, ad = B.np(ops.annihilation_operator(d)), B.np(ops.creation_operator(d))
+        _eq(B, a, cm.annihilation(B, d), f"annihilation({d}): a|n> = sqrt(n)|n-1>")
+        _eq(B, ad, ref.dagger(cm.annihilation(B, d)), f"creation({d}) = annihilation^+")
     elif what == "phase":
         d = case["d"]
         phi = B.angle("phi", 1)
